@@ -30,6 +30,26 @@ GenNext ==
        \/ \E w \in Who : \/ (CancelMark(q, w) /\ Silent) \/ (CancelUnqueue(q, w) /\ Silent) \/ (CancelSend(q, w) /\ Silent)
                          \/ (CancelWaitLook(q, w) /\ Silent) \/ (CancelWaitSend(q, w) /\ Silent)
 GenSpec == GenInit /\ [][GenNext]_<<vars, hist>>
+
+(* the same for several queries: labels carry the query, and only the steps that matter for admission are kept
+   (enq:q, deq, run, recv:q:<terminal>, xfin:q); used with MAXRUN = 1 and no cancels to force every order in which two
+   submissions race with the puller's dequeue / run pair *)
+QName(q) == ToString(q)
+Gen2Next ==
+  \/ (PullCheck /\ Silent)
+  \/ (PullDequeue /\ IF waiting # <<>> THEN Vis("deq") ELSE Silent)
+  \/ (PullRun /\ Vis("run"))
+  \/ (PullSendReady /\ Silent) \/ (PullSendRunning /\ Silent)
+  \/ \E q \in Q :
+       \/ (Enqueue(q) /\ Vis("enq:" \o QName(q)))
+       \/ (Recv(q) /\ IF Head(chan[q]) \in TerminalMsgs THEN Vis("recv:" \o QName(q) \o ":" \o Head(chan[q])) ELSE Silent)
+       \/ (HandlerDelete(q) /\ Silent)
+       \/ (ExecFinish(q) /\ Vis("xfin:" \o QName(q)))
+Gen2Spec == GenInit /\ [][Gen2Next]_<<vars, hist>>
+Emit2 == IF AllQuiet /\ \A q \in Q : hpc[q] = "gone"
+         THEN Serialize(ToJson([steps |-> hist]) \o "\n", "behaviours.ndjson",
+                 [format |-> "TXT", charset |-> "UTF-8", openOptions |-> <<"WRITE", "CREATE", "APPEND">>]).exitValue = 0
+         ELSE TRUE
 Emit == IF AllQuiet /\ hpc[q0] = "gone"
         THEN Serialize(ToJson([steps |-> hist, outcome |-> outcome[q0], marked |-> q0 \in cancelled]) \o "\n", "behaviours.ndjson",
                  [format |-> "TXT", charset |-> "UTF-8", openOptions |-> <<"WRITE", "CREATE", "APPEND">>]).exitValue = 0
